@@ -1,7 +1,7 @@
 """C11 - symbol scoping and linking."""
 from hypothesis import strategies as st
 
-from .. import core, gen, model, oracle, progcheck
+from .. import core, gen, model, oracle, progcheck, render
 
 ID = "C11"
 LEVEL = "exploration"
@@ -219,7 +219,8 @@ def c11_program(draw):
             fault = None
     if draw(st.booleans()):
         files[mains[0]].insert(0, {"k": "link", "e": ("num", draw(st.sampled_from([0o2000, 0o40000])))})
-    return {"files": files, "blobs": {}, "mains": mains, "charset": "bk", "meta": {"fault": fault, "shadow": any(x.get("forced_use") for x in insts), "twice": twice}}
+    return {"files": files, "blobs": {}, "mains": mains, "charset": "bk", "meta": {"fault": fault, "shadow": any(x.get("forced_use") for x in insts), "twice": twice,
+                                                                                       "style": draw(gen.style_st(["case-symbol", "blanks", "case-directive"])) if draw(st.integers(0, 2)) == 0 else None}}
 
 
 @st.composite
@@ -282,11 +283,13 @@ def reuse_stats(prog):
 
 def judge(prog):
     r = model.assemble(prog)
-    texts = progcheck.texts_of(prog)
+    style = (prog.get("meta") or {}).get("style")
+    # names are case-insensitive: one program in three spells every occurrence of a name in a case of its own
+    texts = progcheck.texts_of(prog, render.Style(style["ints"], style["rules"]) if style else None)
     if r.kind == "skip":
         return None, r, texts
-    out, root = progcheck.run_pd(prog, texts, want_symbols=True)
-    res = progcheck.compare(r, out, texts, check_symbols=True, root=root)
+    out, root = progcheck.run_pd(prog, texts, want_symbols=not style)
+    res = progcheck.compare(r, out, texts, check_symbols=not style, root=root)
     return ([res] if res else []), r, texts
 
 
@@ -311,13 +314,15 @@ def run_shard(spec, ctx):
                   "has-include" if len(prog["files"]) > len(prog["mains"]) else "no-include", "reused-names" if reuse else "no-reuse"]
         if any(s["k"] == "extern" and s["names"] == "all" for st_ in prog["files"].values() for s in st_):
             labels.append("extern-all")
+        if prog["meta"].get("style"):
+            labels.append("names-in-mixed-case")
         if prog["meta"].get("twice"):
             labels.append("file-included-twice")
         if prog["meta"].get("shadow"):
             labels.append("shadowed-private-behind-export")
         ctx.case(key, reuse >= 1, labels, sample=progcheck.brief_texts(texts, 600) if ctx.evaluations % 70 == 9 else None)
         if fails:
-            return (fails[0][0], fails[0][1], progcheck.case_of(prog))
+            return (fails[0][0], fails[0][1], progcheck.case_of(prog, meta=prog["meta"]))
         return None
 
     core.hyp_search(ctx, scopes_program() if spec["part"] == "scopes" else c11_program(), check, spec["examples"], "c11-" + spec["part"])
@@ -325,6 +330,8 @@ def run_shard(spec, ctx):
 
 def replay(case):
     if case["kind"] == "prog":
-        fails, r, texts = judge(progcheck.prog_of(case))
+        prog = progcheck.prog_of(case)
+        prog["meta"] = case.get("meta") or {}
+        fails, r, texts = judge(prog)
         return fails or []
     return oracle.replay_generic(case)
